@@ -5,7 +5,9 @@ tag=$1; prop=$2; tier=${3:-quick}
 cd /verif
 git -C /repo diff --quiet || { echo "/repo not clean"; exit 3; }
 p=/verif/seeded/$tag/patch.diff; [ -f /verif/seeded/$tag/patch.rebased.diff ] && p=/verif/seeded/$tag/patch.rebased.diff; git -C /repo apply $p || { echo "patch does not apply"; exit 3; }
+cp evidence/$prop.json /tmp/evidence_$prop.bak 2>/dev/null
 ./check $prop --tier $tier > /tmp/try_$tag_$prop.out 2>&1; rc=$?
+cp evidence/$prop.json /tmp/evidence_${prop}_with_$tag.json 2>/dev/null; cp /tmp/evidence_$prop.bak evidence/$prop.json 2>/dev/null   # evidence of a seeded tree is never kept
 git -C /repo checkout -- .
 grep -c '^VIOLATION' /tmp/try_$tag_$prop.out | sed "s/^/violations: /"
 grep '^VIOLATION' /tmp/try_$tag_$prop.out | head -3
